@@ -400,12 +400,13 @@ def int_homogeneous_centres(ctx, n, prefix="C13"):
     rng = ctx.rng
     for k in range(n):
         kind = rng.choice(["circle", "ellipse", "sphere"])
-        w = rng.choice([2, 2, 4, -2])
+        w = rng.choice([2, 2, 4, -2, 1, 1])
         d = 3 if kind == "sphere" else 2
         num = [rng.choice([-5, -3, -1, 1, 3, 5, 7]) for _ in range(d)]
         ci = g.Point(np.array(num + [w], dtype=np.int64))
         cf = g.Point(*[x / w for x in num])
-        r1, r2 = rng.randint(1, 4), rng.randint(1, 4)
+        # radii with a non-integer square as well: nothing of the matrix may be stored in the integer dtype of the centre
+        r1, r2 = rng.choice([1, 2, 3, 4, 2.5, 0.5, 1.5]), rng.choice([1, 2, 3, 4, 2.5, 1.5])
         if kind == "circle":
             mk = lambda c: g.Circle(c, r1)
         elif kind == "ellipse":
